@@ -1,8 +1,11 @@
 package world
 
 import (
+	"os"
+
 	"crypto/tls"
 	"fmt"
+	clientcmd "github.com/bokysan/socketace/v2/internal/commands/client"
 	"net"
 	"net/http"
 	"reflect"
@@ -40,6 +43,8 @@ type Options struct {
 	ClientCert        string // "", good, foreign
 	Insecure          bool
 	MustSecure        bool
+	// ServerTrustsForeignCA: the server verifies client certificates against the foreign CA
+	ServerTrustsForeignCA bool
 	Host              string // upstream host as the user wrote it (default server.test)
 
 	AppBuf  int  // buffer bound of application/target endpoints (default 64 KiB)
@@ -145,6 +150,9 @@ func New(o Options) (*World, error) {
 		p := pick(o.PKI, o.ServerCert)
 		w.SrvCfg.Certificate, w.SrvCfg.PrivateKey = p.CertPEM, p.KeyPEM
 		w.SrvCfg.CaCertificate = o.PKI.CA
+		if o.ServerTrustsForeignCA {
+			w.SrvCfg.CaCertificate = o.PKI.ForeignCA // this endpoint accepts client certificates of the OTHER CA only
+		}
 	}
 	w.SrvCfg.RequireClientCert = o.RequireClientCert
 	if o.ClientKnowsCA {
@@ -258,7 +266,7 @@ func New(o Options) (*World, error) {
 	default:
 		return nil, fmt.Errorf("unknown carrier %q", o.Carrier)
 	}
-	w.Ups = &upstream.Upstreams{Data: []upstream.Upstream{w.Front}, MustSecure: o.MustSecure}
+	w.Ups = ClientUpstreams([]upstream.Upstream{w.Front}, o.MustSecure, o.Insecure)
 	return w, nil
 }
 
@@ -334,7 +342,21 @@ func (w *World) NewClient() *upstream.Upstreams { return w.NewClientPath("") }
 // NewClientPath is NewClient for a given websocket path.
 func (w *World) NewClientPath(path string) *upstream.Upstreams {
 	f := &Front{W: w, Kind: w.Opt.Carrier, TLS: w.Opt.TLS, Host: w.Opt.Host, Path: path}
-	return &upstream.Upstreams{Data: []upstream.Upstream{f}, MustSecure: w.Opt.MustSecure}
+	return ClientUpstreams([]upstream.Upstream{f}, w.Opt.MustSecure, w.Opt.Insecure)
+}
+
+// ClientUpstreams builds the client's Upstreams the way the program does: a client Command
+// with the --secure / --insecure flags set, whose Startup derives the connection policy
+// (no listeners; the harness opens the logical connections itself).
+func ClientUpstreams(list []upstream.Upstream, secure, insecure bool) *upstream.Upstreams {
+	cmd := clientcmd.NewCommand()
+	cmd.Secure = secure
+	cmd.InsecureSkipVerify = insecure
+	cmd.Upstream = upstream.Upstreams{Data: list}
+	if err := cmd.Startup(make(chan os.Signal)); err != nil {
+		panic("client Command.Startup without listeners failed: " + err.Error())
+	}
+	return &cmd.Upstream
 }
 
 // OpenAppVia is OpenApp through the given client.
